@@ -290,14 +290,18 @@ impl Family for CsvFamily {
     }
     fn bounds(&self, quick: bool) -> ChunkBounds {
         ChunkBounds {
-            full_n: if self.reader { if quick { 12 } else { 18 } } else if quick { 18 } else { 20 },
+            full_n: if self.reader { if quick { 12 } else { 18 } } else if quick { 14 } else { 20 },
             pair_n: if quick { 120 } else { 400 },
             triple_n: if quick { 0 } else { 120 },
             interesting_max: if quick { 10 } else { 14 },
             max_groups: if quick { 2 } else { 6 },
+            uniform_max: usize::MAX,
             flush_policies: false, // documented: flush only after decode returned 0
             empty_chunks: false,   // an empty slice is the end-of-input signal
         }
+    }
+    fn corrupt_bounds(&self, quick: bool) -> ChunkBounds {
+        ChunkBounds { full_n: if quick { 8 } else { 16 }, ..self.bounds(quick) }
     }
     fn run(&self, inp: &InputSpec, bs: usize, variant: usize, ch: &Chunking) -> Outcome {
         let c = &self.cfgs[inp.base];
